@@ -273,15 +273,43 @@ oracle_proof!(c12_two_same_tt, 32, two_lines(0.0, Shape::FullTiming, "0,$b,$c,$d
 // @verif property=C12 tier=quick timeout=1500 mem=20 bounds="2 lines at time 0: inherited then inherited (last wins)" covers=3
 oracle_proof!(c12_two_same_ii, 32, two_lines(0.0, Shape::FullInherited, "0,$b,$c,$d,$e,$f,0,$g", 0.0, Shape::FullInherited, "0,$h,$i,$j,$k,$l,0,$m"));
 
-// ---- two lines, different times ----
-// @verif property=C12 tier=thorough timeout=3000 mem=28 bounds="2 lines: timing change at 0, inherited at 10 (chronological)"
-oracle_proof!(c12_two_0t_10i, 32, two_lines(0.0, Shape::FullTiming, "0,$b,$c,$d,$e,$f,1,$g", 10.0, Shape::FullInherited, "10,$h,$i,$j,$k,$l,0,$m"));
-// @verif property=C12 tier=thorough timeout=3000 mem=28 bounds="2 lines: inherited at 10, then timing change at 0 (out of order)"
-oracle_proof!(c12_two_10i_0t, 32, two_lines(10.0, Shape::FullInherited, "10,$b,$c,$d,$e,$f,0,$g", 0.0, Shape::FullTiming, "0,$h,$i,$j,$k,$l,1,$m"));
-// @verif property=C12 tier=thorough timeout=3000 mem=28 bounds="2 lines: inherited at 20, inherited at -5 (out of order, redundancy against the later point)" covers=3
-oracle_proof!(c12_two_20i_m5i, 32, two_lines(20.0, Shape::FullInherited, "20,$b,$c,$d,$e,$f,0,$g", -5.0, Shape::FullInherited, "-5,$h,$i,$j,$k,$l,0,$m"));
-// @verif property=C12 tier=thorough timeout=3000 mem=28 bounds="2 lines: timing change at 10 (short), timing change at 20 (short)"
-oracle_proof!(c12_two_10t_20t, 32, two_lines(10.0, Shape::Short, "10,$b", 20.0, Shape::Short, "20,$h"));
+// ---- two lines, different times / different kinds: first line CONCRETE, second symbolic ----
+// (two fully symbolic lines at different times, or of different kinds at one time, run out of
+// memory at 28-40 GB; with a concrete first line a same-time pair of different kinds costs 140-200 s.
+// A second line at ANOTHER time -- which makes the first group flush into the lists before the
+// second is parsed -- still runs out of memory / time (825 s OOM at 24 GB, 1500 s time-out) even
+// with a concrete first line and is not registered: flushing is `ControlPoints::add`, decided by
+// C13's inductive step, and the final flush of every harness here.)
+
+/// The values of the concrete line `T,500,4,2,0,50,K,0` (K = 1 timing change, 0 inherited).
+fn concrete_line_vals(time: f64, timing_change: bool) -> LineVals {
+    LineVals {
+        time,
+        beat_len: Some(500.0),
+        present: 8,
+        sig: Some(4),
+        sig_is_zero_text: false,
+        sample_set: Some(2),
+        custom_bank: Some(0),
+        volume: Some(50),
+        timing_change,
+        flags: Some(0),
+    }
+}
+
+fn concrete_then_symbolic(t1: f64, tc1: bool, l1: &'static str, t2: f64, s2: Shape, l2: &'static str) {
+    let mut ctx = new_ctx();
+    feed(&mut ctx, concrete_line_vals(t1, tc1), l1);
+    let v2 = seed_line(t2, s2, b'h');
+    feed(&mut ctx, v2, l2);
+    kani::cover!(ctx.accepted == 2, "both lines accepted");
+    finish(ctx);
+}
+
+// @verif property=C12 tier=quick timeout=1500 mem=24 bounds="concrete timing line at 10, then a symbolic INHERITED full line at 10 (one group, different kinds: inherited points win, timing point stays)"
+oracle_proof!(c12_conc_t10_then_i10, 32, concrete_then_symbolic(10.0, true, "10,500,4,2,0,50,1,0", 10.0, Shape::FullInherited, "10,$h,$i,$j,$k,$l,0,$m"));
+// @verif property=C12 tier=quick timeout=1500 mem=24 bounds="concrete inherited line at 10, then a symbolic TIMING full line at 10 (one group: the timing line must not override the inherited points)"
+oracle_proof!(c12_conc_i10_then_t10, 32, concrete_then_symbolic(10.0, false, "10,500,4,2,0,50,0,0", 10.0, Shape::FullTiming, "10,$h,$i,$j,$k,$l,1,$m"));
 
 // Vacuity twin.
 // @verif property=C12 tier=thorough expect=fail timeout=900 mem=16 bounds="vacuity twin of c12_one_timing_t0"
